@@ -1249,6 +1249,7 @@ static void alloc_many(int count, size_t lo, size_t hi, int ops_mix) {
 /* worker thread: allocates, frees part, exits (its remaining blocks are freed by the main thread afterwards) */
 static mi_subproc_id_t vf_subproc_b;      /* a second sub-process (workload "subproc") */
 typedef struct { int t; int heapid; int count; size_t lo, hi; uint64_t seed; int mode; int victim; int in_b; } worker_t;   /* mode 0: allocate, free half, exit; 1: allocate, exit with everything live; 2: free every block of heap `victim`, exit */
+static int last_worker_heap2 = 0;      /* id of the heap a mode-7 worker created (its blocks carry that id) */
 static void* worker_main(void* arg) {
   worker_t* w = (worker_t*)arg;
   cur_t = w->t; cur_theap = w->heapid;
@@ -1267,6 +1268,15 @@ static void* worker_main(void* arg) {
         for (int s = 0; s < MAXSLOTS; s++) if (slots[s].p && slots[s].heap == hps[hi].id) op_free_slot(s, FR_free);
         heap_delete_op(hi);
       }
+    }
+  }
+  else if (w->mode == 7) {       /* works in a heap of its own (mi_heap_new) and exits WITHOUT deleting it: its blocks survive the thread like those of the default heap */
+    int before = next_heap_id; heap_new_op();
+    int hi = -1; if (next_heap_id != before) for (int i = 1; i < MAXHEAPS; i++) if (hps[i].alive && hps[i].id == before) hi = i;
+    if (hi > 0) {
+      for (int j = 0; j < w->count; j++) op_alloc_ex(A_heap_malloc, w->lo + (size_t)vf_randn(w->hi - w->lo + 1), 0, 0, hi, 0);
+      last_worker_heap2 = hps[hi].id;
+      hps[hi].alive = 0; hps[hi].descid = 0;       /* released by mi_thread_done */
     }
   }
   else if (w->mode == 6) { op_alloc_ex(A_malloc_aligned, ((size_t)3 << 20) + 4096, (size_t)32 << 20, 0, 0, 0); alloc_many(w->count, w->lo, w->hi, 0); }   /* mode 1 + a segment mapped directly (over-aligned block) */
@@ -1339,7 +1349,10 @@ static void workload_alloc_base(const char* wl) {
                                   alloc_many(280, 270000, 420000, 1); alloc_many(6, (size_t)2 << 20, (size_t)6 << 20, 0); }
   else if (!strcmp(wl, "relay")) {   /* a producer thread exits with everything live (several segments, full pages); a consumer thread frees all of it and exits too:
                                         nobody who touched that memory is alive any more, it must still be given back */
-                                  int ph = run_worker_ex(260, 200000, 262000, 1, 0); run_worker_ex(0, 0, 0, 2, ph); alloc_many(10, 1, 100000, 1); }
+                                  int ph = run_worker_ex(260, 200000, 262000, 1, 0); run_worker_ex(0, 0, 0, 2, ph);
+                                  /* ... and a producer that worked in a heap of its own (mi_heap_new) and exits without deleting it */
+                                  last_worker_heap2 = 0; run_worker_ex(60, 100, 60000, 7, 0); if (last_worker_heap2) run_worker_ex(0, 0, 0, 2, last_worker_heap2);
+                                  alloc_many(10, 1, 100000, 1); }
   else if (!strcmp(wl, "relayos")) {  /* as relay, but the producers also leave segments behind that were mapped directly (a block aligned to 32 MiB): abandoned
                                         segments on the list of the sub-process AND in the arena bitmaps; the consumer and the main thread must find all of them */
                                   int p1 = run_worker_ex(3, 100, 5000, 6, 0); run_worker_ex(0, 0, 0, 2, p1);
